@@ -41,7 +41,7 @@ func runC06(o *opts) (*summary, error) {
 		for _, proto := range []string{"udp", "tcp", "any", "", "TCP"} {
 			for _, bind := range []string{"", "192.168.1.10:0", "192.168.1.10:50001"} {
 				for _, bc := range []string{"", "192.168.1.255:60000", "192.168.1.255:60005"} {
-					cfg := clientCfg{Bind: bind, Broadcast: bc}
+					cfg := clientCfg{Bind: bind, Broadcast: bc, ViaNew: nconf%2 == 1}
 					// other controllers are always configured: routing must pick the right one
 					cfg.Devices = append(cfg.Devices, devCfg{Name: "other", Serial: 303986753, Addr: "192.168.1.200:60000", Proto: "tcp"})
 					if kind != "unconfigured" {
